@@ -12,101 +12,99 @@ Definition show_fres (r : fres) : string :=
   end.
 Definition check (rs : list rune) : string := digest (show_fres (format_res rs)).
 Definition full (rs : list rune) : string := show_fres (format_res rs).
-Eval vm_compute in ("<<<M5>>>" ++ check (runes_of_ascii "MetaData  asx {char[] MetaDataX ,
-lengthOf Z9_	, crc
-    Foo ,char[ 4294967296]
-BodyLength , Foo leftPad `doc`, tag // a // b
-u128 , } root packet
-    stringy { // trailing space 
-match Header as
-    repeatCount	{ [ ""{,}""] :
-Header
+Eval vm_compute in ("<<<M263>>>" ++ check (runes_of_ascii "
+packet Z9_ //x
+{ @calculatedFrom( ""1"" )
+match
+body as u8x{ [ 7 ] :
+u ,
+[7
+,00, ""a\""b""
+, """" , ""\n"" , 00
+] : charz , 1	: // c
+Packet
+, """ ++ [28040; 24687]%N ++ runes_of_ascii """ :
+f32a ,  00 : // trailing space 
+len } ,@lengthOf(calculatedFrom )	MetaDataX
+    , Packet	@lengthOf(
+    int ) , repeat // `tick` ""quote"" 'q'
+char[ 7 ]calculatedFrom, @calculatedFrom(""a\\"" ) zchar[ //
+255 // " ++ [128512]%N ++ runes_of_ascii " emoji
+] f32a @calculatedFrom( """ ++ [233]%N ++ runes_of_ascii "t" ++ [233]%N ++ runes_of_ascii """ ) ,	@calculatedFrom( ""a\""b"" // packet A { u8 x, }
+)char[7
+    //	t
+    ] i8i8 @calculatedFrom(""a\\"") `crlf
+line` ,zchar[
+    0123456789	]
+x `line1
+line2`
+,@leftPad () repeat
+u64 stringy , @lengthOf( x	) repeat
+body
+{//	t
+Z9_ {
+repeat asx , repeat crc i64_ // " ++ [27880; 37322]%N ++ runes_of_ascii "
+, repeat rootA { repeat rootA MetaDataX `line1
+line2`
+    // `tick` ""quote"" 'q'
+    ,match
+i64_ as
+calculatedFrom {
+    7
+:
+x[ 7 ] : stringy , ""1"": i8i8 , [
+""1"" , 42 ,
+// trailing space 
 /// triple
-//
-,255 :repeatCount , 00 :pack, 1 : trueish
-    , 7
-    : A }
-    ,
-T
-    {Z9_
-`
-` ,
-} ,
-    int16 o
-@calculatedFrom(
-""it's""
-) `line1
-line2`	, match zchar
-as As{ ""CRC32"" :	a1, 42: Header [ 10
-    //
-    ] : zchar // trailing space 
-,
-    }// " ++ [128512]%N ++ runes_of_ascii " emoji
-, @tag( 42 )repeat i64_{
-    // c
-    char[00 ] _x `{ , }` ,
-}
-,repeat //x
-char[] uint8x
-`crlf
-line` ,@leftPad
-(	'\x00'
-    ) @tag( 7 )
-    int32
+""" ++ [233]%N ++ runes_of_ascii "t" ++ [233]%N ++ runes_of_ascii """ , 10 ,
+255 , 0 , 10 ]
+: u ,
+""x y""
+:
+    i8i8 }
+// `tick` ""quote"" 'q'
+//x
+,uint64 _x `
+` ,char[ 0 ] i64_ @calculatedFrom( ""CRC32""
+)
+    , }, x_y_z {
+char[] T
 // a // b
 // @lengthOf(
-repeatCount
-    @calculatedFrom(
-""x y"" )
-`// not a comment` , u32 zchar
-    `
-` , repeat stringy { i8i8 lengthOf
-, } , // packet A { u8 x, }
-@calculatedFrom(  ""abc"" ) @lengthOf( tag ) @lengthOf( /// triple
-rootA )  char[3	] // c
-rootA`" ++ [233]%N ++ runes_of_ascii "` ,// c
-}MetaData crc
-{
-float32
-asx `" ++ [233]%N ++ runes_of_ascii "` ,	string i64_// " ++ [128512]%N ++ runes_of_ascii " emoji
-,
-    }
-root packet Packet
-    //
-    {charz @lengthOf( zchar) ,	f32
-    f32a `{ , }` // a // b
-, i64 matchKey @lengthOf( leftPad )
-    , string trueish, @leftPad (  '0')
-    // trailing space 
-    tag@lengthOf( // a // b
-string_ ) `doc` , match stringy
-// @lengthOf(
-// @lengthOf(
-as calculatedFrom
-    { [
-0123456789 ]: repeatCount
+,} ,} ,repeat  u64 Foo `a\`,
+    uint8
+uint8x,
+match
 //	t
-//
-,} ,// trailing space 
-char[
-3]
-Header ,
-int64 MetaDataX
-,	@leftPad( ) len { packetx @lengthOf(chars ) `` ,
-    }, @rightPad ( '0'
-    )  x_y_z
+// trailing space 
+roots
+as chars {1
+    : _x ""a\""b"" :uint8x, 42 : metadata // " ++ [128512]%N ++ runes_of_ascii " emoji
+, // `tick` ""quote"" 'q'
+[// @lengthOf(
+""\n"" ,
+255]
+: zchar
+[ """ ++ [233]%N ++ runes_of_ascii "t" ++ [233]%N ++ runes_of_ascii """ ,3
+, 4294967296 ,// trailing space 
+0123456789 , ""x y"" ] : metadata[ // c
+""it's"" , ""// no comment""
+]  :Z9_
+    , }
+,	}
+    , } // a // b
+MetaData rootA	{ char[ 4294967296 ] msg_type,// @lengthOf(
+char[]  u128, uint64 a1 , int8 crc , Pad
+    msg_type `doc`
 ,
-} options{ rootA
-// packet A { u8 x, }
-//x
-= '0'
-; Foo =char
-    ;A
-    = zchar[ 0123456789 ]
-// " ++ [27880; 37322]%N ++ runes_of_ascii "
-//x
-;packetx = """ ++ [233]%N ++ runes_of_ascii "t" ++ [233]%N ++ runes_of_ascii """
-float = true } //x")).
+}
+//	t
+/// triple
+packet x_y_z
+    {@lengthOf( crc) match packetx as f32a	{ 0123456789:A
+,	00 :	u // @lengthOf(
+}, }
+")).
 Eval vm_compute in ("<<<M257>>>" ++ check (runes_of_ascii "options
 {
 BodyLength
@@ -169,111 +167,133 @@ Packet , [ //x
     body { char string_, char[]
 x, len Pad , string
     leftPad , } // trailing space ")).
-Eval vm_compute in ("<<<M128>>>" ++ check (runes_of_ascii "root
-packet // " ++ [27880; 37322]%N ++ runes_of_ascii "
-crc
-    {	@lengthOf(	As
-)@calculatedFrom(""\" ++ [233]%N ++ runes_of_ascii """
-    ) zchar[ 4294967296 ]MetaDataX `doc` ,/// triple
-rootA @calculatedFrom( ""it's"" )	,@tag( 65535
-    ) @tag( // c
-7 )@tag( 00
-//
-// c
-) len @lengthOf( A ) `two words` ,
-// trailing space 
-// " ++ [128512]%N ++ runes_of_ascii " emoji
-string	rootA@lengthOf( pack
-// trailing space 
-//	t
-) ,
-// " ++ [128512]%N ++ runes_of_ascii " emoji
-// trailing space 
-repeat zchar ,
-@calculatedFrom( ""abc"" )@leftPad ('\x00' ) @rightPad
-( )match x_y_z
-    as Z9_{
-""it's""
-    :
-Logon//x
-, ""x y"" : Packet,""abc""
-: trueish 4294967296 // @lengthOf(
-:
-    repeatCount """ ++ [128512]%N ++ runes_of_ascii """:  x_y_z
-} , char[ 10 // @lengthOf(
-]
-    stringy	`it's`
-, @leftPad (
-'\x00' )
-rootA @lengthOf(  i64_  )
-    , } MetaData falsey {
-Packet repeatCount `tab	here` ,
-}MetaData string_ {
-    float64 roots `line1
-line2` , char
-As //
-`
-` , zchar[ 65535 ]falsey`a\` ,A
-    T , _x metadata, } packet
-_x // packet A { u8 x, }
-{zchar[255 ] string_@lengthOf(
-//	t
-// @lengthOf(
-u128 ) `{ , }`	,
-}root packet Packet
-    {repeat // " ++ [128512]%N ++ runes_of_ascii " emoji
-lengthOf , }")).
-Eval vm_compute in ("<<<M107>>>" ++ check (runes_of_ascii "packet falsey { i64_ ,	charz  {
-match Packet  as Pad { ""\n"" :Packet
-    , ""// no comment"" // " ++ [128512]%N ++ runes_of_ascii " emoji
-:
-f32a// `tick` ""quote"" 'q'
-, [
-    /// triple
-    3  ,4294967296,
-    10 ,//
-7 , 10	]
-: u
-, // trailing space 
-""`tick`"": u8x
-,
-[ 7 , ""it's"" ]:Packet, 0 : len
-    //
-    , }
-    , }, /// triple
-@lengthOf(	f32a) char[ 3 ]options1
-    @lengthOf(
-Pad)
-, zchar[ 0123456789 ]// trailing space 
-T ``
-,
-} packet
-Pad
-{
-    // c
-    o roots `{ , }` // " ++ [128512]%N ++ runes_of_ascii " emoji
-, }packet f32a {
-_x//
-@calculatedFrom(	""x y"") //x
-,@tag( 65535
-) //	t
-char pack @lengthOf( zchar  ) ,repeat //
-int64 falsey  ,repeat len {match A
-    as rootA {[ 42,  ""\n"" ]:
-Z9_ , }
-,repeat i16
-A , repeat zchar[ 65535 ] tag `
-` ,
-f64 float
-    @lengthOf( f32a ) ``  ,
-// `tick` ""quote"" 'q'
-// packet A { u8 x, }
-} , x
-    u8x
-, @tag(  42	) repeat As Packet	, @lengthOf( Pad
-    )repeat
-    f64 rootA ,// @lengthOf(
-}")).
+Eval vm_compute in ("<<<M1734>>>" ++ check (runes_of_ascii "// a // b
+packet stringy {
+    string zchar,
+    repeat T,
+    match u as charz {
+        007 : float,
+        ""\" ++ [233]%N ++ runes_of_ascii """ : Logon,
+        ""a	b"" : pack,
+    },
+    match uint8x as roots {
+        1 : len,
+    },
+}
+
+packet zchar {
+    roots options1 `// not a comment`,
+    int64 As,
+    i16 float @lengthOf(falsey) `a\`,
+    int64 msg_type `tab	here`,
+    @tag(0)
+    repeat uint8x,
+    @lengthOf(x)
+    repeat metadata,
+    zchar[0] int,
+    uint64 zchar,
+    zchar[7] msg_type,
+    @calculatedFrom(""" ++ [28040; 24687]%N ++ runes_of_ascii """)
+    crc,
+}
+
+root packet zchar {
+    repeat leftPad,
+}
+
+packet A {
+    @lengthOf(string_)
+    x @lengthOf(options1) `two words`,
+    string len,
+}
+
+packet falsey {
+    i64_ @calculatedFrom(""{,}""),
+    repeat string chars,
+    zchar[7] calculatedFrom,
+    Header {
+        char u `two words`,
+        repeat char[] tag `say ""hi""`,
+        Z9_ @lengthOf(T) `line1
+        line2`,
+    },
+    msg_type @calculatedFrom(""// no comment""),
+    @rightPad('\x00')
+    @lengthOf(asx)
+    falsey,
+}// packet A { u8 x, }")).
+Eval vm_compute in ("<<<M1488>>>" ++ check (runes_of_ascii "// top
+packet Frame {
+    // c2a
+    // c2b
+    u8 HK,
+    // c5
+    u8 BK,// c8a
+    // c8b
+    u8 TK,// c11a
+    // c11b
+    match HK as Hdr {
+        // c16
+        1 : HdrA,
+        2 : HdrB,
+        // c24a
+        // c24b
+    },
+    // c26
+    match BK as Body {
+        // c31
+        1 : BodyA,
+        // c35
+        2 : BodyB,
+    },// c41
+    match TK as Trl {
+        // c46a
+        // c46b
+        1 : TrlA,
+        // c50a
+        // c50b
+    },// c52a
+    // c52b
+}// c53a
+
+// c53b
+packet HdrA {
+    u8 a,// c59
+}// c60
+
+packet HdrB {
+    // c63a
+    // c63b
+    u16 b,// c66
+}// c67
+
+packet BodyA {
+    // c70a
+    // c70b
+    u32 c,
+}// c74
+
+packet BodyB {
+    // c77
+    u64 d,// c80a
+    // c80b
+}// c81a
+
+// c81b
+packet TrlA {
+    // c84
+    u8 e,
+    // c87
+}// c88a
+
+// c88b
+root packet Msg {
+    Frame,// c94a
+    // c94b
+    u8 x,// c97a
+    // c97b
+}
+// c98")).
 Eval vm_compute in ("<<<M228>>>" ++ check (runes_of_ascii "packet
 //
 // " ++ [27880; 37322]%N ++ runes_of_ascii "
@@ -324,502 +344,574 @@ len // packet A { u8 x, }
 ) i8 body@calculatedFrom(""" ++ [233]%N ++ runes_of_ascii "t" ++ [233]%N ++ runes_of_ascii """) `it's` , }
 // @lengthOf(
 ")).
-Eval vm_compute in ("<<<M1692>>>" ++ check (runes_of_ascii "// a // b
-packet u128 {
-    repeat chars {
-        i64 u8x `
-        `,// c
-        _x @lengthOf(falsey),
-        Logon `" ++ [28040; 24687; 31867; 22411]%N ++ runes_of_ascii "`,
-        repeat char[] trueish `tab	here`,
-    },
-}
-
-root packet T {
-    match Packet as trueish {
-        ""packet"" : charz,
-        [4294967296, ""1""] : A,
-        7 : x,
-        [7, ""a	b""] : u128,
-        255 : As,
-        3 : Packet,
-    },
-    //	t
-    // trailing space 
-    pack `a\`,
-    @calculatedFrom(""" ++ [233]%N ++ runes_of_ascii "t" ++ [233]%N ++ runes_of_ascii """)
-    rootA matchKey,
-    char[65535] leftPad @lengthOf(roots),
-    repeat MetaDataX {
-        u64 a1 @calculatedFrom(""x y"") `doc`,//	t
-        uint8 falsey,
-        match BodyLength as A {
-            [""\" ++ [233]%N ++ runes_of_ascii """, 255, """", ""it's""] : Foo,
-            3 : u128,
-        },
-    },
-}")).
-Eval vm_compute in ("<<<M1122>>>" ++ check (runes_of_ascii "// top
-options // c0
-{ // c1
-uint8x // c2
-= // c3
-007 // c4
-; // c5
-lengthOf // c6
-= // c7
-i8 // c8
-; // c9
-} // c10
-packet // c11
-i64_ // c12
-{ // c13
-@calculatedFrom( // c14
-""1"" // c15
-) // c16
-@tag( // c17
-3 // c18
-) // c19
-@lengthOf( // c20
-rootA // c21
-) // c22
-repeat // c23
-int8 // c24
-Packet // c25
-`u8 x,` // c26
-, // c27
-} // c28
-root // c29
-packet // c30
-stringy // c31
-{ // c32
-@rightPad // c33
-( // c34
-' ' // c35
-) // c36
-repeat // c37
-char[ // c38
-10 // c39
-] // c40
-repeatCount // c41
-, // c42
-@tag( // c43
-255 // c44
-) // c45
-float64 // c46
-msg_type // c47
-@calculatedFrom( // c48
-""packet"" // c49
-) // c50
-, // c51
-} // c52
-")).
-Eval vm_compute in ("<<<M1294>>>" ++ check (runes_of_ascii "// top
-packet // c0a
-  // c0b
-A // c1
-{
-    // c2
-u8
-    // c3
-a // c4a
-  // c4b
-, } // c6a
-  // c6b
-packet // c7a
-  // c7b
-B // c8a
-  // c8b
-{ u16 // c10
-b // c11a
-  // c11b
-,
-    // c12
-}
-    // c13
-root // c14
-packet P // c16
-{ // c17a
-  // c17b
-u8 K1 // c19
-, // c20
-u8 // c21a
-  // c21b
-K2 // c22a
-  // c22b
-, // c23a
-  // c23b
-match // c24a
-  // c24b
-K1 as
-    // c26
-M1 // c27a
-  // c27b
-{ // c28a
-  // c28b
-1
-    // c29
-:
-    // c30
-A // c31
-, // c32a
-  // c32b
-} , match K2
-    // c36
-as
-    // c37
-M2 // c38
-{ 1 : // c41a
-  // c41b
-B
-    // c42
-, } ,
-    // c45
-} // c46
-")).
-Eval vm_compute in ("<<<M1442>>>" ++ check (runes_of_ascii "
-options
-    {
-    ArrayPrefixLenType=u64 ; FixedStringPadFromLeft=	true
-;
-FixedStringPadChar =
-
-'0'
-;
-    }
-
-    packet
-
-    Quote{
-
-} packet
-
-Ack 
-{
-    repeat
-InNote66
-{
-u8 pad0 
-,
-
-    } , 
-}
-
-    packet 
-Reject
-{
-
-}
-
-root packet
-
-Order
-	{Quote ,
-
+Eval vm_compute in ("<<<M93>>>" ++ check (runes_of_ascii "packet float { char[]
+    u8x
+@lengthOf( roots ) ,
+}MetaData leftPad	{ string
+    // `tick` ""quote"" 'q'
+    a1, }root
+packet // " ++ [27880; 37322]%N ++ runes_of_ascii "
+pack { falsey,
+    /// triple
+    match Logon
+as // " ++ [128512]%N ++ runes_of_ascii " emoji
+trueish
+{""packet""
+    : Foo ,"""" : len, 0123456789: i64_ , ""it's"" : packetx
+    ,
+    255
+    : len
+, }
+    , repeat
+As As `" ++ [233]%N ++ runes_of_ascii "` , @tag( 3  ) uint32 a1
+, repeat  zchar[ 4294967296]
+pack	,@leftPad (' ' )  zchar  @lengthOf( string_ ) `// not a comment` , repeat int ,
 repeat
-	Reject
-	,  string 
-venue
-, string	seqNo
-
-    , uint32 Ref ,  u16
-    lastPx
-
-,
-	u32
-clOrdID
-    @lengthOf(
-    Body  ) ,
-
-match
-lastPx as  Body
-{
-
-    190
-	: Reject,  186:  Quote , 22 :	Ack ,
-} , u16 Flags
-	@calculatedFrom(  ""CRC32""
-
-)  , }
-
-")).
-Eval vm_compute in ("<<<M1898>>>" ++ check (runes_of_ascii "// top
-packet Logon {
-    // c2a
-    // c2b
-    string user,// c5a
-    // c5b
-}// c6a
-
-// c6b
-root packet Frame {
-    // c10
-    u8 K,
-    // c13
-    match K as Body {
-        // c18
-        1 : Logon,
-        // c22a
-        // c22b
-        2 : Logout,
-        // c26
-    },// c28a
-    // c28b
-    Tail,// c30a
-    // c30b
-}// c31a
-
-// c31b
-packet Logout {
-    // c34a
-    // c34b
-    u16 reason,
-}
-
-// c38
-packet Tail {
-    // c41
-    u32 crc,// c44
-}// c45a
-// c45b")).
-Eval vm_compute in ("<<<M1192>>>" ++ check (runes_of_ascii "// top
-MetaData
-    // c0
-uint8x
-    // c1
-{
-    // c2
-char[]
-    // c3
-f32a
-    // c4
-`// not a comment`
-    // c5
-,
-    // c6
+i8i8 // " ++ [27880; 37322]%N ++ runes_of_ascii "
+{ u64
+    // a // b
+    tag `say ""hi""`	,u8x , char trueish  , repeat // packet A { u8 x, }
 float32
-    // c7
+    stringy `line1
+line2` ,} ,match o
+as	o { 007  : float },
+// packet A { u8 x, }
+// c
+repeat
+    Pad ,
+// " ++ [27880; 37322]%N ++ runes_of_ascii "
+// trailing space 
+}")).
+Eval vm_compute in ("<<<M58>>>" ++ check (runes_of_ascii "packet pack
+// c
+// packet A { u8 x, }
+{u8 a1
+// trailing space 
+/// triple
+`say ""hi""` // packet A { u8 x, }
+, @leftPad (
+'\x00' )  uint8 Logon	`
+` // `tick` ""quote"" 'q'
+,
+char[]lengthOf // " ++ [27880; 37322]%N ++ runes_of_ascii "
+`" ++ [233]%N ++ runes_of_ascii "` ,
+//
+//x
+repeat char[] As,
+    //	t
+    @lengthOf(string_ )  @calculatedFrom(
+""a\\"" )
+    repeat
+    u8x	o	, char string_ @calculatedFrom(
+""a\""b"" )
+`tab	here`
+    , repeat As { char[
+    // packet A { u8 x, }
+    0 ] i64_//	t
+@lengthOf( T)
+`" ++ [233]%N ++ runes_of_ascii "` , char[4294967296	]
+T @calculatedFrom( ""\" ++ [233]%N ++ runes_of_ascii """ )
+, trueish
+, repeat int
+{string Logon @calculatedFrom(	""1"" ) , metadata  ,
+uint32
+Z9_  , // " ++ [27880; 37322]%N ++ runes_of_ascii "
+} , },@tag( 00 ) //	t
+i16  a1 `a\`
+    ,
+    }
+")).
+Eval vm_compute in ("<<<M1892>>>" ++ check (runes_of_ascii "
+packet  charz
+{  
+  // " ++ [27880; 37322]%N ++ runes_of_ascii "
+	/// triple
+    repeat	// c
+      string
+
+    int
+
+    `" ++ [28040; 24687; 31867; 22411]%N ++ runes_of_ascii "` ,  @calculatedFrom(
+""it's"" )
+@tag(
+
+255 ) 
+f64 	 // a // b
+    asx
+
+    ,string
+    T`doc` , zchar[
+
+    007 
+]
+	tag @lengthOf(//
+    Z9_	)
+`// not a comment`
+, } options	{
+
+u
+=
+u16;}	MetaData
+	chars
+
+    { i16
+falsey 
+,	f64
+pack ,
+
+char[ 
+1
+
+    ]
+    asx	`it's`
+	,
+char[] body
+, 
+	    // `tick` ""quote"" 'q'
+
+  //x
+
+  }  packet
+	leftPad
+    {  @rightPad
+
+    (
+// @lengthOf(
+    //x
+) repeat  Pad  float`{ , }` ,  } options
+
+    {
+
 roots
-    // c8
-,
+    =
+    true ;
+
+    }
+")).
+Eval vm_compute in ("<<<M1115>>>" ++ check (runes_of_ascii "packet float
+    // c1
+{ // c2
+@rightPad // c3a
+  // c3b
+( // c4a
+  // c4b
+) // c5a
+  // c5b
+rootA // c6
+@lengthOf( // c7a
+  // c7b
+trueish // c8
+)
     // c9
-char[
+,
     // c10
-7
-    // c11
-]
-    // c12
-u8x
-    // c13
-,
+stringy // c11a
+  // c11b
+@lengthOf( // c12a
+  // c12b
+matchKey )
     // c14
-zchar[
-    // c15
-10
-    // c16
-]
-    // c17
-f32a
+, // c15a
+  // c15b
+char[ 4294967296 ]
     // c18
-,
-    // c19
-u64
+pack @lengthOf(
     // c20
-pack
+uint8x
     // c21
+) // c22a
+  // c22b
 ,
-    // c22
-u16
     // c23
-pack
+} // c24
+root // c25
+packet trueish {
+    // c28
+repeat uint64
+    // c30
+u128
+    // c31
+`line1
+line2` // c32
+,
+    // c33
+}
+    // c34
+")).
+Eval vm_compute in ("<<<M1235>>>" ++ check (runes_of_ascii "// top
+options
+    // c0
+{
+    // c1
+f32a
+    // c2
+=
+    // c3
+0
+    // c4
+}
+    // c5
+packet
+    // c6
+trueish
+    // c7
+{
+    // c8
+}
+    // c9
+MetaData
+    // c10
+_x
+    // c11
+{
+    // c12
+char[
+    // c13
+0123456789
+    // c14
+]
+    // c15
+zchar
+    // c16
+,
+    // c17
+string
+    // c18
+crc
+    // c19
+,
+    // c20
+char[
+    // c21
+1
+    // c22
+]
+    // c23
+options1
     // c24
 ,
     // c25
-}
+uint8
     // c26
-")).
-Eval vm_compute in ("<<<M292>>>" ++ check (runes_of_ascii "packet/// triple
-matchKey { float32 float,@calculatedFrom(""a\\""// " ++ [27880; 37322]%N ++ runes_of_ascii "
-) @rightPad
-( '\x00' )i16 tag  @calculatedFrom(""abc"" ) ,
-repeat zchar[255
-] pack
-    , @lengthOf( Z9_ ) tag , } // trailing space 
-root
-packet rootA { repeat metadata { Logon , }, @tag( 10)
-@lengthOf( A )
-@tag( 007)
-u32
-    options1, match float as u {0123456789 : u8x ,} ,	}// " ++ [27880; 37322]%N ++ runes_of_ascii "
-root packet lengthOf { }
-")).
-Eval vm_compute in ("<<<M110>>>" ++ check (runes_of_ascii "root // trailing space 
-packet
-leftPad { T
-@lengthOf(A
-) `" ++ [233]%N ++ runes_of_ascii "`,
-    Header
-    @lengthOf( As ) // " ++ [27880; 37322]%N ++ runes_of_ascii "
+repeatCount
+    // c27
 ,
-string	calculatedFrom `{ , }`
-, @tag( 1) // trailing space 
-u16  x_y_z ,
-@tag( 4294967296
-) x_y_z metadata// " ++ [128512]%N ++ runes_of_ascii " emoji
-,asx { asx `it's`
-    ,} , char[ 65535 ]
-As@lengthOf(
-    Logon ) `a\`
-,@lengthOf(
-Z9_
-    ) string
-BodyLength ,
-}")).
-Eval vm_compute in ("<<<M1268>>>" ++ check (runes_of_ascii "// top
-packet
-    // c0
-B
-    // c1
+    // c28
+}
+    // c29
+")).
+Eval vm_compute in ("<<<M1638>>>" ++ check (runes_of_ascii "  options{u 
+=
+7  
+  // " ++ [27880; 37322]%N ++ runes_of_ascii "
+
+roots
+	= zchar[
+
+65535]	msg_type
+    =""" ++ [233]%N ++ runes_of_ascii "t" ++ [233]%N ++ runes_of_ascii """
+    ;x
+=
+false
+}
+MetaData string_
+	{
+char[ 	 // trailing space 
+	  42 
+        //x
+    // " ++ [128512]%N ++ runes_of_ascii " emoji
+
+]
+	i8i8
+
+    `" ++ [28040; 24687; 31867; 22411]%N ++ runes_of_ascii "`
+    , u8 x_y_z
+
+    ,packetx 
+lengthOf
+    `` 
+      // " ++ [27880; 37322]%N ++ runes_of_ascii "
+
+,
+    T Header
+	`line1
+line2`
+
+    ,
+char[]	// " ++ [27880; 37322]%N ++ runes_of_ascii "
+u8x
+	`two words` ,
+    } packet	float//x
+    {calculatedFrom ,
+	@rightPad
+    ( '0') 
+char[  3
+	]u128, } ")).
+Eval vm_compute in ("<<<M1259>>>" ++ check (runes_of_ascii "// top
+packet // c0
+B // c1a
+  // c1b
 { // c2
-u8
-    // c3
+u8 // c3a
+  // c3b
 a // c4
-, string // c6
-s
-    // c7
-, } root // c10
-packet
+, } // c6
+root // c7a
+  // c7b
+packet // c8a
+  // c8b
+P { // c10
+u8
     // c11
-P // c12a
-  // c12b
-{
-    // c13
-u16
-    // c14
+K , // c13
+u8 // c14a
+  // c14b
 L // c15a
   // c15b
-@lengthOf( B
-    // c17
-)
+@lengthOf( // c16a
+  // c16b
+Body )
     // c18
-,
-    // c19
-B
-    // c20
-, u8 // c22a
+, match // c20
+K as // c22a
   // c22b
-t
+Body
     // c23
-, // c24
-} ")).
-Eval vm_compute in ("<<<M1673>>>" ++ check (runes_of_ascii "options {
-    LittleEndian = false;
-    StringPrefixLenType = u16;
+{ 1 :
+    // c26
+B // c27
+, }
+    // c29
+,
+    // c30
+}
+    // c31
+")).
+Eval vm_compute in ("<<<M1674>>>" ++ check (runes_of_ascii "
+
+  root packet
+	int{
+
+match MetaDataX as
+
+    charz
+    {
+255
+:
+
+uint8x
+,
+
+65535 : // @lengthOf(
+
+u128""\" ++ [233]%N ++ runes_of_ascii """
+
+:
+	o  , 0123456789
+	:  _x 
+""{,}""	: 
+matchKey
+	// `tick` ""quote"" 'q'
+    // `tick` ""quote"" 'q'
+[
+
+4294967296
+    , 
+"""",	10 ] : charz , 
+}	,@lengthOf(  roots
+
+    )	x  @calculatedFrom(
+	""\n"" ),
+    i32	tag  ,
+    }")).
+Eval vm_compute in ("<<<M1359>>>" ++ check (runes_of_ascii "options
+    {
+	LittleEndian 
+=
+false ; StringPrefixLenType
+
+    =
+u16
+
+; }  packet
+    Heartbeat
+	{ @rightPad(
+
+    '0')
+	char[
+7 ]
+seqNo	,
+	uint64 Tail
+,
+
+    i16
+Flags 
+,
+u16
+msgKind,  } root
+
+packet
+    Reject
+{ 
+zchar[
+	3
+]tag7
+
+,
+    repeat Heartbeat ,	repeat 
+string
+	clOrdID,	}
+
+")).
+Eval vm_compute in ("<<<M1689>>>" ++ check (runes_of_ascii "//	t
+    options 
+{	chars
+
+    = true	As= char[] 
+// trailing space 
+// " ++ [128512]%N ++ runes_of_ascii " emoji
+	; 	 /// triple
+  	x_y_z = 7
+
+;	// " ++ [27880; 37322]%N ++ runes_of_ascii "
+    i8i8  =
+true packetx=  /// triple
+	' ' 
+}	root
+packet x_y_z {
+repeat  char[
+42
+    //x
+    ]	//	t
+  Pad,
+	} 
+    // packet A { u8 x, }")).
+Eval vm_compute in ("<<<M1659>>>" ++ check (runes_of_ascii "
+options { 
+Z9_
+	=  // trailing space 
+	""packet""
+	; 
+float 
+= false 
+;
+A
+	= ' '
 }
 
-packet Heartbeat {
-    @rightPad('0')
-    char[7] seqNo,
-    uint64 Tail,
-    i16 Flags,
-    u16 msgKind,
-}
+// c
+	  MetaData 
+pack 
+{zchar[3
 
-root packet Reject {
-    zchar[3] tag7,
-    repeat Heartbeat,
-    repeat string clOrdID,
-}")).
-Eval vm_compute in ("<<<M97>>>" ++ check (runes_of_ascii "packet
-i8i8 { repeat char[	00 ] Pad
-    `a\` ,
-@leftPad
-    (
-'\x00') string	a1@lengthOf(tag )``, float64
-    u128 @calculatedFrom( ""1""
-)  ,	@lengthOf( x
-    )
-    u128 @lengthOf( tag )
-`" ++ [28040; 24687; 31867; 22411]%N ++ runes_of_ascii "` , int64 u ,
-A//x
-T
-    `say ""hi""`
+] leftPad , zchar 
+falsey  `it's`
+,
+char[] 
+repeatCount , char[ 65535// " ++ [128512]%N ++ runes_of_ascii " emoji
+  ]  Z9_ ,
+} 
+	    //	t
+")).
+Eval vm_compute in ("<<<M249>>>" ++ check (runes_of_ascii "
+packet
+rootA {
+} // trailing space 
+packet f32a //	t
+{ match
+zchar as zchar
+    {	65535 : f32a , 7 : charz// trailing space 
+,
+""{,}""
+//	t
+//x
+: Header , 42
+    :a1 // packet A { u8 x, }
+, }
 , }
 ")).
-Eval vm_compute in ("<<<M367>>>" ++ check (runes_of_ascii "
-packet roots  { @calculatedFrom( ""a\\"" ) @lengthOf( packetx  ) match repeatCount
-as body { 007:
-    lengthOf ,
-    00
-    :// `tick` ""quote"" 'q'
-zchar,} ,
-char[] chars
-`say ""hi""`,}
-MetaData packetx
-    {}
+Eval vm_compute in ("<<<M1293>>>" ++ check (runes_of_ascii "packet A {
+    u8 a,
+}
+packet B {
+    u16 b,
+}
+root packet P {
+    u8 K1,
+    u8 K2,
+    match K1 as M1 {
+        1 : A,
+    },
+    match K2 as M2 {
+        1 : B,
+    },
+}
 ")).
-Eval vm_compute in ("<<<M1716>>>" ++ check (runes_of_ascii "packet A {
+Eval vm_compute in ("<<<M1849>>>" ++ check (runes_of_ascii "packet A {
     match k as n {
         [
-            ""a"", ""bb"", ""c c"", ""d"", ""e"",
-            ""f"", ""g"", ""h"", ""i"", ""j"",
-            ""k"", ""l""
+            1, ""bb"", 007, ""d"", 5,
+            ""f"", 7, ""h"", 9, ""j"",
+            11
         ] : B,
         2 : C,
     },
 }")).
-Eval vm_compute in ("<<<M283>>>" ++ check (runes_of_ascii "
-root packet /// triple
-u8x {}options { o =	zchar[ 1 ]
-    Packet
-    // trailing space 
-    =u32 ; uint8x =""a\\"";
-    /// triple
-    u8x
-=0
-;
-    crc =""\n"" ; }")).
-Eval vm_compute in ("<<<M1537>>>" ++ check (runes_of_ascii "packet A {
-    match k as n {
-        [
-            1, 22, 007, 4, 5,
-            66, 7, 8, 9, 10,
-            11, 12
-        ] : B,
-        2 : C,
-    },
-}")).
-Eval vm_compute in ("<<<M446>>>" ++ check (runes_of_ascii "packet uint8x
+Eval vm_compute in ("<<<M1480>>>" ++ check (runes_of_ascii "
+packet 
+i64_
+{ }
+MetaData
+uint8x { Packet
+tag
+    ,
+u8	repeatCount  ,
+	x_y_z	_x
+
+    `" ++ [233]%N ++ runes_of_ascii "`  ,  zchar[
+    42
+    ]
+	crc
+	`a\`
+, 
+}
+
+    options{ }
+")).
+Eval vm_compute in ("<<<M531>>>" ++ check (runes_of_ascii "packet uint8x
 { match pack
     as msg_type	{
     0123456789 :	float
-} }
+}
+,
+} packet //	t
+a1
+    { } options {packetx
+    = '\x00'	; u128= ""a	b""  ; } }
+")).
+Eval vm_compute in ("<<<M432>>>" ++ check (runes_of_ascii "packet uint8x
+{ match pack
+    as msg_type	{
+    : 0123456789	float
+}
 ,
 } packet //	t
 a1
     { } options {packetx
     = '\x00'	; u128= ""a	b""  ; }
 ")).
-Eval vm_compute in ("<<<M1906>>>" ++ check (runes_of_ascii "
-
-  MetaData	leftPad
-{ chars  MetaDataX// c
-  , }	packet
-repeatCount
-    {
-char[ 
-255]
-uint8x  `" ++ [233]%N ++ runes_of_ascii "`
-    ,
-
-    }
-
-    MetaData pack
-{As Foo	,
+Eval vm_compute in ("<<<M455>>>" ++ check (runes_of_ascii "packet uint8x
+{ match pack
+    as msg_type	{
+    0123456789 :	float
 }
-
+,
+ packet //	t
+a1
+    { } options {packetx
+    = '\x00'	; u128= ""a	b""  ; }
 ")).
-Eval vm_compute in ("<<<M527>>>" ++ check (runes_of_ascii "packet uint8x
+Eval vm_compute in ("<<<M510>>>" ++ check (runes_of_ascii "packet uint8x
 { match pack
     as msg_type	{
     0123456789 :	float
@@ -828,228 +920,230 @@ Eval vm_compute in ("<<<M527>>>" ++ check (runes_of_ascii "packet uint8x
 } packet //	t
 a1
     { } options {packetx
-    = '\x00'	; u128= ""a	b""  } ;
+    = '\x00'	; = ""a	b""  ; }
 ")).
-Eval vm_compute in ("<<<M1742>>>" ++ check (runes_of_ascii "packet roots {
-    // " ++ [27880; 37322]%N ++ runes_of_ascii "
-    @tag(0)
-    repeat zchar[0] x,
-}
-
-options {
-    As = ""\" ++ [233]%N ++ runes_of_ascii """;
-    pack = ' ';
-    int = '\x00';
-    options1 = ""`tick`"";
-}")).
-Eval vm_compute in ("<<<M705>>>" ++ check (runes_of_ascii "// @lengthOf(
+Eval vm_compute in ("<<<M677>>>" ++ check (runes_of_ascii "// @lengthOf(
 packet i8i8 { u128 o , }
 options { MetaDataX = true;
-    BodyLength =""packet"" x_y_z= 007
-crc //x
-= = ""abc"" ;
-    msg_type =
-i16 }")).
-Eval vm_compute in ("<<<M722>>>" ++ check (runes_of_ascii "// @lengthOf(
-packet i8i8 { u128 o , }
-options { MetaDataX = true;
-    BodyLength =x_y_z ""packet""= 007
+    BodyLength =""packet"" x_y_z 007 =
 crc //x
 = ""abc"" ;
     msg_type =
 i16 }")).
-Eval vm_compute in ("<<<M61>>>" ++ check (runes_of_ascii "packet
-    i64_ { }
-MetaData uint8x {Packet tag , u8	repeatCount
-, x_y_z
-_x `" ++ [233]%N ++ runes_of_ascii "`
-    , zchar[
-    42
-    ]
-    crc
-`a\` ,
-} options	{ }")).
-Eval vm_compute in ("<<<M1687>>>" ++ check (runes_of_ascii "// top
-root packet P {
-    // c3
-    u8 s_u8,// c6
-    repeat u8 r_u8,
-    // c10
-    u16 b_len,// c13a
-    // c13b
-}// c14a
-// c14b")).
-Eval vm_compute in ("<<<M1529>>>" ++ check (runes_of_ascii "
+Eval vm_compute in ("<<<M704>>>" ++ check (runes_of_ascii "// @lengthOf(
+packet i8i8 { u128 o , }
+options { MetaDataX = true;
+    BodyLength =""packet"" x_y_z 007
+crc //x
+= ""abc"" ;
+    msg_type =
+i16 }")).
+Eval vm_compute in ("<<<M519>>>" ++ check (runes_of_ascii "packet uint8x
+{ match pack
+    as msg_type	{
+    0123456789 :	float
+}
+,
+} packet //	t
+a1
+    { } options {packetx
+    = '\x00'	; u128")).
+Eval vm_compute in ("<<<M1545>>>" ++ check (runes_of_ascii "MetaData leftPad {
+    chars MetaDataX,
+}
 
-  packet
-u
+packet repeatCount {
+    char[255] uint8x `" ++ [233]%N ++ runes_of_ascii "`,
+}
 
-{ repeat 
-// " ++ [128512]%N ++ runes_of_ascii " emoji
-  A
-	,
-	@lengthOf( lengthOf)
-repeat
-	i64 
-i64_
-,//
-
-	zchar[
-3// a // b
-    ]
-body 
+MetaData pack {
+    // c
+    As Foo,
+}")).
+Eval vm_compute in ("<<<M1532>>>" ++ check (runes_of_ascii "packet A {
+    u16 len @lengthOf(body) `tab
+    	x`,
+    u32 crc @calculatedFrom(""CRC32"") `tab
+    	x`,
+    string body,
+}")).
+Eval vm_compute in ("<<<M1154>>>" ++ check (runes_of_ascii "MetaData leftPad { chars MetaDataX ,
+// c
+} packet repeatCount { char[ 255 ] uint8x `" ++ [233]%N ++ runes_of_ascii "` , } MetaData pack { As Foo , }")).
+Eval vm_compute in ("<<<M1186>>>" ++ check (runes_of_ascii "MetaData leftPad { chars MetaDataX , } packet repeatCount { char[ 255 ] uint8x `" ++ [233]%N ++ runes_of_ascii "` , } MetaData pack { As Foo
+// c
 , }")).
-Eval vm_compute in ("<<<M1148>>>" ++ check (runes_of_ascii "MetaData leftPad {
-// c
-chars MetaDataX , } packet repeatCount { char[ 255 ] uint8x `" ++ [233]%N ++ runes_of_ascii "` , } MetaData pack { As Foo , }")).
-Eval vm_compute in ("<<<M1180>>>" ++ check (runes_of_ascii "MetaData leftPad { chars MetaDataX , } packet repeatCount { char[ 255 ] uint8x `" ++ [233]%N ++ runes_of_ascii "` , } MetaData pack
-// c
-{ As Foo , }")).
-Eval vm_compute in ("<<<M300>>>" ++ check (runes_of_ascii "packet
-Logon  { repeat u {zchar { zchar[ 007
-] a1
-`` ,  x_y_z@calculatedFrom(
-//
-// " ++ [128512]%N ++ runes_of_ascii " emoji
-""{,}""
-    ), }, } ,}
-")).
-Eval vm_compute in ("<<<M962>>>" ++ check (runes_of_ascii "packet A {
-    Inner {
-        u8 x `tab
-	x`,
-        Deep {
-            u8 y `tab
-	x`,
-        },
+Eval vm_compute in ("<<<M1577>>>" ++ check (runes_of_ascii "packet asx {
+    match u128 as lengthOf {
+        //	t
+        // `ti/ck` ""quote"" 'q'
+        255 : x,
     },
 }")).
-Eval vm_compute in ("<<<M913>>>" ++ check (runes_of_ascii "packet A {
+Eval vm_compute in ("<<<M24>>>" ++ check (runes_of_ascii "options { metadata
+= '\x00' ;
+    u128
+=
+    ""CRC32"" ; charz = ' 'options1 = 00 ; }
+packet string_ { }
+")).
+Eval vm_compute in ("<<<M160>>>" ++ check (runes_of_ascii "
+MetaData zchar { roots
+A , char[] falsey `line1
+line2` ,
+// " ++ [128512]%N ++ runes_of_ascii " emoji
+// @lengthOf(
+int crc ,	} //	t")).
+Eval vm_compute in ("<<<M876>>>" ++ check (runes_of_ascii "packet A {
   match k as n {
-    [1, 22, ""c c"", 4, 5, ""f"", 7, 8, ""i"", 10, 11, ""l""] : B
+    [""a"", ""bb"", 007, ""d"", ""e"", 66, ""g"", ""h"", 9] : B
     2 : C
   },
 }")).
-Eval vm_compute in ("<<<M854>>>" ++ check (runes_of_ascii "packet A {
-  match k as n {
-    [""a"", ""bb"", ""c c"", ""d"", ""e"", ""f"", ""g"", ""h""] : B,
-    2 : C
-  },
-}")).
-Eval vm_compute in ("<<<M558>>>" ++ check (runes_of_ascii "
+Eval vm_compute in ("<<<M1672>>>" ++ check (runes_of_ascii "
+packet A{  Inner 
+{
+
+match
+k
+
+    as n	{
+	[
+1
+	,
+22
+]
+    :B
+
+    ,
+
+}	,}
+	,
+    }
+
+")).
+Eval vm_compute in ("<<<M632>>>" ++ check (runes_of_ascii "
 packet
-    asx asx {match u128 as lengthOf
+    asx {match u128 a|s lengthOf
 {
 //	t
 // `tick` ""quote"" 'q'
 255 : x ,
     } ,	}")).
-Eval vm_compute in ("<<<M645>>>" ++ check (runes_of_ascii "
-packet
-    asx {match u128 as lengthOf
-{
-//	t
-// `tick` ""quote"" 'q'
-255 : a" ++ [769]%N ++ runes_of_ascii "b ,
-    } ,	}")).
-Eval vm_compute in ("<<<M609>>>" ++ check (runes_of_ascii "
-packet
-    asx {match u128 as lengthOf
-{
-//	t
-// `tick` ""quote"" 'q'
-255 : x }
-    , ,	}")).
-Eval vm_compute in ("<<<M1695>>>" ++ check (runes_of_ascii "options {
-    Z9_ = '\x00'
+Eval vm_compute in ("<<<M1389>>>" ++ check (runes_of_ascii "MetaData crc {
+    Pad T,
+    zchar[0123456789] a1,
+    int8 trueish,
 }
 
-packet trueish {
-    // " ++ [128512]%N ++ runes_of_ascii " emoji
-    u16 calculatedFrom,
+packet float {
 }")).
-Eval vm_compute in ("<<<M553>>>" ++ check (runes_of_ascii "
+Eval vm_compute in ("<<<M1955>>>" ++ check (runes_of_ascii "
 
-    asx {match u128 as lengthOf
-{
-//	t
-// `tick` ""quote"" 'q'
-255 : x ,
-    } ,	}")).
-Eval vm_compute in ("<<<M972>>>" ++ check (runes_of_ascii "packet A {
-    u32 crc @calculatedFrom(""\
-""),
-    @calculatedFrom(""\
-"") u8 y,
-}")).
-Eval vm_compute in ("<<<M827>>>" ++ check (runes_of_ascii "packet A {
-  match k as n {
-    [1, 22, 007, 4, 5, 66] : B
-    2 : C
-  },
-}")).
-Eval vm_compute in ("<<<M42>>>" ++ check (runes_of_ascii "
-packet roots
-    { len leftPad `// not a comment`	,} packet packetx{}")).
-Eval vm_compute in ("<<<M851>>>" ++ check (runes_of_ascii "packet A { Inner { match k as n { [1,22,007,4,5,66,7] : B, }, }, }")).
-Eval vm_compute in ("<<<M189>>>" ++ check (runes_of_ascii "
-packet
-i64_ { @tag( 0123456789 ) repeat u16 stringy
+  packet A  { match k
+	as n
+
+    {  [ 1,""bb""	,
+
+    007
 ,
-    }")).
-Eval vm_compute in ("<<<M1751>>>" ++ check (runes_of_ascii "
+	""d""	] :B 2 : C}
+,
 
-  root
-
-    packet
-    chars	{
-i16
-    leftPad	,  }
-")).
-Eval vm_compute in ("<<<M1814>>>" ++ check (runes_of_ascii "packet A {
-    u8 x `a
-            b
-          c`,
 }")).
-Eval vm_compute in ("<<<M1704>>>" ++ check (runes_of_ascii "
+Eval vm_compute in ("<<<M815>>>" ++ check (runes_of_ascii "packet A {
+  match k as n {
+    [""a"", ""bb"", ""c c"", ""d"", ""e""] : B,
+    2 : C
+  },
+}")).
+Eval vm_compute in ("<<<M840>>>" ++ check (runes_of_ascii "packet A {
+  match k as n {
+    [1, 22, 007, 4, 5, 66, 7] : B
+    2 : C
+  },
+}")).
+Eval vm_compute in ("<<<M1859>>>" ++ check (runes_of_ascii "packet
+
+A	{ 
+match k
+	as  n {[ 
+""a""
+,
+""bb""
+    ] : B,	2
+
+    :C } , }
+")).
+Eval vm_compute in ("<<<M809>>>" ++ check (runes_of_ascii "packet A {
+  match k as n {
+    [1, 22, ""c c"", 4] : B
+    2 : C
+  },
+}")).
+Eval vm_compute in ("<<<M628>>>" ++ check (runes_of_ascii "
 packet
+    asx {match u128 as lengthOf
+{
+//	t
+// `tick` ""quote""")).
+Eval vm_compute in ("<<<M261>>>" ++ check (runes_of_ascii "options{ asx= ""1"" //	t
+Pad =  0 stringy =
+    '\x00'
+    ; }")).
+Eval vm_compute in ("<<<M1423>>>" ++ check (runes_of_ascii "
+MetaData
+_x {  i64 u128
+	,
+	Packet	Header	,
 
-    A { u8
-    x `d" ++ [8239]%N ++ runes_of_ascii "`
-, 	 // c" ++ [8239]%N ++ runes_of_ascii "
-    }
-
-")).
-Eval vm_compute in ("<<<M233>>>" ++ check (runes_of_ascii "MetaData _x { i64 u128	, Packet Header, } 	 ")).
-Eval vm_compute in ("<<<M1240>>>" ++ check (runes_of_ascii "root packet P {
-    char c,
-    u8 x,
-}
-")).
-Eval vm_compute in ("<<<M54>>>" ++ check (runes_of_ascii "options
-{ T= '0' ;A= u8 ;
-    } 	 ")).
-Eval vm_compute in ("<<<M738>>>" ++ check (runes_of_ascii "\B1ss""~3@|Nr!9$[0mx>ti>t+Fp_cN&")).
-Eval vm_compute in ("<<<M1657>>>" ++ check (runes_of_ascii "// c" ++ [65279]%N ++ runes_of_ascii "
-		packet A
-    {
     }
 ")).
-Eval vm_compute in ("<<<M338>>>" ++ check (runes_of_ascii "root packet
-msg_type { }
+Eval vm_compute in ("<<<M1199>>>" ++ check (runes_of_ascii "packet // c
+body { i32 f32a `{ , }` , } options { }")).
+Eval vm_compute in ("<<<M333>>>" ++ check (runes_of_ascii "  MetaData
+x_y_z{ }	packet chars	{	} options {}
 ")).
-Eval vm_compute in ("<<<M1064>>>" ++ check (runes_of_ascii "packet A {
-}// a// b")).
-Eval vm_compute in ("<<<M1041>>>" ++ check (runes_of_ascii "packet A {
+Eval vm_compute in ("<<<M755>>>" ++ check (runes_of_ascii "string i8 ) } u8 [ uint32 ] } = uint8 '\x00'")).
+Eval vm_compute in ("<<<M1702>>>" ++ check (runes_of_ascii "  MetaData
+
+    u{ 
+        // c
+
+	}
+
+")).
+Eval vm_compute in ("<<<M1897>>>" ++ check (runes_of_ascii "packet
+
+    x
+{
+} 
+    // c
+ 
+")).
+Eval vm_compute in ("<<<M934>>>" ++ check (runes_of_ascii "root packet A {
+    u8 x `
+`,
+}")).
+Eval vm_compute in ("<<<M175>>>" ++ check (runes_of_ascii "
+packet calculatedFrom { } 	 ")).
+Eval vm_compute in ("<<<M1652>>>" ++ check (runes_of_ascii "// c" ++ [12288]%N ++ runes_of_ascii "
+	  packet
+    A{} ")).
+Eval vm_compute in ("<<<M1103>>>" ++ check (runes_of_ascii "// c
+MetaData tag { }")).
+Eval vm_compute in ("<<<M1130>>>" ++ check (runes_of_ascii "MetaData // c
+u { }")).
+Eval vm_compute in ("<<<M1021>>>" ++ check (runes_of_ascii "packet A {
 }
-// c 	")).
-Eval vm_compute in ("<<<M1007>>>" ++ check (runes_of_ascii "// c" ++ [8202]%N ++ runes_of_ascii "
-packet A {
-}")).
-Eval vm_compute in ("<<<M979>>>" ++ check (runes_of_ascii "packet A {
-}// c" ++ [12288]%N)).
-Eval vm_compute in ("<<<M1749>>>" ++ check (runes_of_ascii "MetaData tag {
-}")).
-Eval vm_compute in ("<<<M1891>>>" ++ check (runes_of_ascii "
-// c x")).
-Eval vm_compute in ("<<<M765>>>" ++ check (runes_of_ascii "/" ++ [65533; 65533; 65533]%N)).
+// c" ++ [8239]%N)).
+Eval vm_compute in ("<<<M999>>>" ++ check (runes_of_ascii "packet A {
+}// c" ++ [8192]%N)).
+Eval vm_compute in ("<<<M378>>>" ++ check (runes_of_ascii "// @lengthOf(
+
+")).
+Eval vm_compute in ("<<<M1911>>>" ++ check (runes_of_ascii "
+// c" ++ [12288]%N ++ runes_of_ascii "
+ 
+")).
+Eval vm_compute in ("<<<M754>>>" ++ check (runes_of_ascii "Y )'")).
